@@ -725,6 +725,21 @@ impl<T> OnceCell<T> {
     }
 }
 
+#[cfg(feature = "verif-hooks")]
+impl<T> OnceCell<T> {
+    /// `state`; listeners of `active_initializers`, `passive_waiters`.
+    #[doc(hidden)]
+    pub fn __verif_snapshot(&self) -> crate::__verif::Snapshot {
+        crate::__verif::Snapshot {
+            words: std::vec![self.state.load(Ordering::SeqCst)],
+            events: std::vec![
+                crate::__verif::event(&self.active_initializers),
+                crate::__verif::event(&self.passive_waiters),
+            ],
+        }
+    }
+}
+
 impl<T> From<T> for OnceCell<T> {
     /// Create a new, initialized `OnceCell` from an existing value.
     ///
